@@ -183,10 +183,10 @@ def run(rep):
     for k, v in trace_stats(COMP, traces).items():
         rep.add("impl_" + k, v)
     T("record")
-    mh.validate_grouped(COMP, traces, rep, namer, classer)
+    rej = mh.validate_grouped(COMP, traces, rep, namer, classer)
     T("validate")
     # (d) binding self-test
-    mh.corrupt_pub_self_test(COMP, traces, rep, random.Random(rep.seed))
+    mh.corrupt_pub_self_test(COMP, mh.accepted(traces, rej), rep, random.Random(rep.seed))
     # metrics disabled => no hardware (structure), with enabled positive controls
     dis = [c for c in cfgs if c["ways"] <= 2 and (thorough or c["width"] == 3)]
     dis = dis if thorough else dis[::7]
